@@ -107,12 +107,17 @@ func c19UseDID(x *h.Ctx, router resolver.DIDResolver, didStr string, keyIDs []st
 		x.Class("stage1:is-a-DID")
 		if doc, _, err := router.Resolve(*id, nil); err == nil && doc != nil {
 			resolved = true
-			b, _ := json.Marshal(doc)
-			var back did.Document
-			_ = json.Unmarshal(b, &back)
-			for _, vm := range doc.VerificationMethod {
-				keyIDs = append(keyIDs, vm.ID.String())
-			}
+			// harness's own inspection of the resolved document (library calls only)
+			c19x.Own(x, func() {
+				b, _ := json.Marshal(doc)
+				var back did.Document
+				_ = json.Unmarshal(b, &back)
+			})
+			c19x.Own(x, func() {
+				for _, vm := range doc.VerificationMethod {
+					keyIDs = append(keyIDs, vm.ID.String())
+				}
+			})
 		}
 		for rel := resolver.Authentication; rel <= lastRel; rel++ {
 			_, _, _ = kr.ResolveKey(*id, nil, rel)
@@ -416,10 +421,12 @@ func c19WebRun(x *h.Ctx, c c19WebCase) {
 		if doc, _, err := router.Resolve(id, nil); err == nil {
 			for _, s := range doc.Service {
 				_, _ = sr.Resolve(resolver.MakeServiceReference(id, s.Type), resolver.DefaultMaxServiceReferenceDepth)
-				var asString string
-				_ = s.UnmarshalServiceEndpoint(&asString)
-				var asMap map[string]string
-				_ = s.UnmarshalServiceEndpoint(&asMap)
+				c19x.Own(x, func() {
+					var asString string
+					_ = s.UnmarshalServiceEndpoint(&asString)
+					var asMap map[string]string
+					_ = s.UnmarshalServiceEndpoint(&asMap)
+				})
 			}
 		}
 	})
